@@ -353,6 +353,10 @@ def validate_trace(ctx, module, trace_path, stateless=False, chunk_events=40000,
                                 "wall_s": round(res.wall, 1)})
     ctx.cov["evaluations"] += res.events
     ctx.cov["rejected_events"] += len(res.rejected)
+    # states TLC visited while validating the recording (one per consumed line) count as explored states too;
+    # the per-run breakdown (model runs vs trace validation) is in tlc_runs
+    ctx.cov["states"] += res.states
+    ctx.cov["transitions"] += res.states
     return res
 
 
